@@ -34,6 +34,7 @@ type Scenario struct {
 	MaxSteps    int
 	Symmetric   []string // see vsched.Config.Symmetric
 	StartMs     int64    // virtual clock start (unix ms); 0 = default
+	FreeCost    int      // see vsched.Config.FreeSwitchCost
 	// New returns a fresh per-execution state.
 	New func() Execution
 }
@@ -65,7 +66,7 @@ func RunOne(sc *Scenario, prefix []int, trace bool) (obs string, f *Failure, rec
 	ch := &explore.Chooser{Prefix: prefix}
 	x := sc.New()
 	out = vsched.Run(vsched.Config{MaxSteps: sc.MaxSteps, TimerBudget: sc.TimerBudget,
-		Monitor: x.Monitor, Trace: trace, Symmetric: sc.Symmetric, StartMs: sc.StartMs}, adapter{ch}, x.Main)
+		Monitor: x.Monitor, Trace: trace, Symmetric: sc.Symmetric, StartMs: sc.StartMs, FreeSwitchCost: sc.FreeCost}, adapter{ch}, x.Main)
 	obs, f = x.Finish(out)
 	if ch.Diverge != "" && f == nil {
 		f = &Failure{Class: "", Msg: "NONDETERMINISM: " + ch.Diverge}
@@ -94,7 +95,7 @@ func Explore(c *lib.Ctx, sc *Scenario) {
 		run := func(ch *explore.Chooser) string {
 			x := sc.New()
 			out := vsched.Run(vsched.Config{MaxSteps: sc.MaxSteps, TimerBudget: sc.TimerBudget,
-				Monitor: x.Monitor, Symmetric: sc.Symmetric, StartMs: sc.StartMs}, adapter{ch}, x.Main)
+				Monitor: x.Monitor, Symmetric: sc.Symmetric, StartMs: sc.StartMs, FreeSwitchCost: sc.FreeCost}, adapter{ch}, x.Main)
 			obs, f := x.Finish(out)
 			if ch.Diverge != "" {
 				lib.Infra("scenario %s: replay diverged: %s", sc.Name, ch.Diverge)
